@@ -3035,10 +3035,9 @@ CALSCALE:GREGORIAN\n";
 		if (UNLIKELY(i.t == NULL)) {
 			break;
 		}
-		/* use specifics in T to declare defaults */
-		if (i.t->max_simul) {
-			fdprintf("X-ECHS-MAX-SIMUL:%d\n", i.t->max_simul);
-		}
+		/* use specifics in T to declare defaults
+		 * (not max_simul though, every task that has got one prints it
+		 * itself and the others would inherit it upon reading) */
 		with (nummapstr_t o = i.t->owner) {
 			const char *p;
 			uintptr_t n;
